@@ -142,9 +142,16 @@ func BoundedClient(pc protocol.Client, limit int) protocol.Client {
 // unpublished operations. A panic is caught and reported in Outcome.Panic. The number of Apply calls is
 // bounded by 4*len(ops)+8 (exceeding it is reported as a non-termination panic).
 func Resolve(pc protocol.Client, suffix string, stored, unpublished []*operation.AnchoredOperation, opts ...document.ResolutionOption) (out *Outcome) {
+	return ResolveAfter(pc, suffix, stored, unpublished, nil, opts...)
+}
+
+// ResolveAfter is Resolve on a processor object that has already served other resolutions of the same (unchanged)
+// stores: first the latest state, then one resolution per warm option. Their outcomes are not judged; a node keeps
+// one processor for all requests, so whatever they leave behind must not influence the resolution under test.
+func ResolveAfter(pc protocol.Client, suffix string, stored, unpublished []*operation.AnchoredOperation, warm []document.ResolutionOption, opts ...document.ResolutionOption) (out *Outcome) {
 	calls := 0
 	var log []wire.ApplyEvent
-	cc := &countingClient{inner: pc, calls: &calls, limit: 4*(len(stored)+len(unpublished)) + 8, log: &log}
+	cc := &countingClient{inner: pc, calls: &calls, limit: (4*(len(stored)+len(unpublished)) + 8) * (2 + len(warm)), log: &log}
 	var popts []processor.Option
 	if unpublished != nil {
 		popts = append(popts, processor.WithUnpublishedOperationStore(&unpubSlice{ops: unpublished}))
@@ -166,6 +173,13 @@ func Resolve(pc protocol.Client, suffix string, stored, unpublished []*operation
 			}
 		}
 	}()
+	if warm != nil {
+		_, _ = p.Resolve(suffix)
+		for _, w := range warm {
+			_, _ = p.Resolve(suffix, w)
+		}
+		calls, log = 0, nil
+	}
 	rm, err := p.Resolve(suffix, opts...)
 	out.ApplyCalls = calls
 	out.Applied = log
